@@ -50,7 +50,13 @@ func (handler *InvHandler) Handle(ctx context.Context, m wire.Message) ([]wire.M
 		switch item.Type {
 		case wire.InvTypeTx:
 			alreadyHave, shouldRequest := handler.memPool.AddRequest(ctx, item.Hash, true)
-			if !alreadyHave {
+			if alreadyHave {
+				// The trusted node vouches for a tx that came from another peer. The mempool is
+				// not saved, so the tx repo has to know too.
+				if err := handler.txs.MarkTrusted(ctx, item.Hash); err != nil {
+					return response, errors.Wrap(err, "mark trusted")
+				}
+			} else {
 				if shouldRequest {
 					// Request
 					if err := invRequest.AddInvVect(item); err != nil {
